@@ -29,6 +29,7 @@ import CifModel.Model.LadderHeader
     ladder nextpacket <keep 0|1> <n> (<name-hex> <vshape…>)*n <k>   cif_pktitr_next_packet: the loop's only packet has the given
                                             values; keep = 1: handed to the caller (*packet == NULL), 0: dropped (packet == NULL)
     ladder loophdr <n> <k>                  parse_loop (syntax-only) on a header of n distinct names and a refused repetition of the first
+    ladder allloops <flags> <k>             cif_container_get_all_loops on a block with one loop per flag character (c = with category, n = without)
     ladder names <n> <k>                    cif_loop_get_names on a stored loop with n item names (the code as it is:
                                             getNamesPinned)
   shape tokens: S (unknown/na) | C (char) | M0 | M1 (number without / with su) | [ shape* ]
@@ -257,6 +258,11 @@ def handle : Handler
       let n ← n.toNat?; let k ← k.toNat?
       if n = 0 then none
       let (rc, st) := loopHeaderAbort k n
+      pure (summary rc st.evs)
+  | ["allloops", fl, k] => do
+      let k ← k.toNat?
+      let cats ← fl.toList.mapM (fun c => if c == 'c' then some true else if c == 'n' then some false else none)
+      let (rc, _, st) := getAllLoops k cats
       pure (summary rc st.evs)
   | "getpackets" :: nT :: rest => do
       let n ← nT.toNat?
